@@ -33,7 +33,7 @@ class C02(Prop):
     trusted_base = ["hand model of esl_sqio_ascii.c's unaligned readers (FASTA, EMBL/UniProt, GenBank/DDBJ, daemon, hmmpgmd, autodetection) tied by exact differential run (h_sqio.c); alignment-as-sequences selections are covered by the sanitizer build and the record monitor only",
                     "Lean compiler/runtime for the executable driver; gcc; ASan/UBSan/LSan"]
     rule = ("cases = byte strings (mutations of formats/*, generated FASTA with injected NUL / CR / >=0x80 / illegal symbols, raw bytes) x format selection x text/amino/DNA/RNA x "
-            "read call (Read, ReadInfo, ReadSequence, ReadWindow, ReadBlock) x B in {1,2,3,7,64,4096}; non-trivial = at least one record or a format error was returned")
+            "read call (Read, ReadInfo, ReadSequence, ReadWindow, ReadBlock) x B in {1,2,3,7,64,4096}; every 10th case = systematic sweep of the 7 explicit unaligned formats x {text,amino,DNA,RNA} x the 5 read calls over well-formed files whose sequence lines carry letters outside the nucleotide alphabets, synonyms, digits, punctuation and blanks (monitor: residues delivered == the file's legal residues, an illegal symbol => eslEFORMAT with a message); non-trivial = at least one record or a format error was returned")
 
     def generated(self, ctx):
         return S.generated(ctx)
